@@ -54,6 +54,15 @@ class C01(PureCheck):
                 a = [rng.choice([0, 0, 2, 5, 8]), rng.choice([0, 0, 1, 4])] + [rng.choice([0, 0, 0, 1, 2]) for _ in range(6)]
                 runs.append([enc.enc_text(rng.choice(["", "a", "b\n", "xy"])), a])
             yield {"runs": runs}
+        # values derived by an operation from a value that was rendered (str() taken) before: the memoised
+        # terminal string of the operand must not leak into what the result displays
+        derive = ["removeatts_bg", "removeatts_fg_bold", "withatts", "ljust0", "rjust0", "slice", "splice", "add", "rewrap", "newstr", "copy"]
+        for k in range(1500 if tier == "quick" else 30000):
+            runs = []
+            for _ in range(rng.choice([1, 2, 2, 3])):
+                a = [rng.choice([0, 2, 5]), rng.choice([0, 1, 4, 4])] + [rng.choice([0, 0, 1, 2]) for _ in range(6)]
+                runs.append([enc.enc_text(rng.choice(["a", "xy", "b\n", ""])), a])
+            yield {"runs": runs, "derive": derive[k % len(derive)], "render_first": int(k % 3 != 0)}
 
     def execute(self, inp):
         from curtsies.formatstring import fmtstr, FmtStr
@@ -64,9 +73,39 @@ class C01(PureCheck):
         else:
             for t, a in runs:
                 f = f + fmtstr(enc.dec_text(t), **enc.dec_atts(a))
+        if inp.get("derive"):
+            if inp.get("render_first"):
+                str(f), len(f), f.s
+                try:
+                    f.width
+                except Exception:  # noqa
+                    pass
+            d = inp["derive"]
+            if d == "removeatts_bg":
+                f = f.new_with_atts_removed("bg")
+            elif d == "removeatts_fg_bold":
+                f = f.new_with_atts_removed("fg", "bold")
+            elif d == "withatts":
+                f = f.copy_with_new_atts(fg=33, underline=True)
+            elif d == "ljust0":
+                f = f.ljust(0) if f.chunks else f
+            elif d == "rjust0":
+                f = f.rjust(len(f)) if f.chunks else f
+            elif d == "slice":
+                f = f[0:max(1, len(f) - 1)]
+            elif d == "splice":
+                f = f.splice("Z", min(1, len(f)), min(2, len(f)))
+            elif d == "add":
+                f = f + fmtstr("q", "blue")
+            elif d == "rewrap":
+                f = fmtstr(f, bold=False, bg="cyan")
+            elif d == "newstr":
+                f = f.copy_with_new_str("nw")
+            elif d == "copy":
+                f = f.copy()
         s1 = str(f)
         s2 = str(f)
-        return {"op": "str", "f": enc.enc_fmtstr(f), "toks": enc.lex(s1), "toks2": enc.lex(s2)}
+        return {"op": "str", "f": enc.enc_fmtstr(f), "toks": enc.lex(s1), "toks2": enc.lex(s2), "derive": inp.get("derive", "")}
 
     def classify(self, ev):
         if any(any(x in (2, 3, 4, 5, 6, 7, 8) for x in r[1][:2]) or 2 in r[1][2:] for r in ev["f"]):
@@ -74,7 +113,7 @@ class C01(PureCheck):
         return None
 
     def case_class(self, ev, v):
-        return "runs=%d" % min(len(ev["f"]), 2)
+        return "runs=%d" % min(len(ev["f"]), 2) + (":derived-" + ev["derive"] if ev.get("derive") else "")
 
     def describe(self, ev, v):
         return f"str() of runs {ev['f']} lexes to {ev['toks']}"
